@@ -115,8 +115,91 @@ func Generate(r *vlib.Rand, cfg Config) *Program {
 	c := &ctx{touched: map[string]bool{}}
 	n := 2 + r.Intn(3)
 	g.p.Body = g.block(c, n)
+	if cfg.RichGroups {
+		g.convProbes()
+	}
 	g.useAll()
 	return g.p
+}
+
+// fixedPat is a pattern with one group of the given body and values.
+func (g *gen) fixedPat(body string, vals []string) *PatNode {
+	g.npat++
+	p := &Pattern{Word: fmt.Sprintf("w%03d", g.npat)}
+	p.Text = p.Word + " (" + body + ")"
+	p.Parts = []PatPart{{Lit: p.Text}}
+	g.setGroups(p, []top{{body: body, rich: &RichGroup{Body: body, Spec: SpecCapType(body), Region: RegionMain, Vals: vals}}})
+	g.p.patterns = append(g.p.patterns, p)
+	g.feat("pattern/groups1")
+	return &PatNode{P: p}
+}
+
+// storeValue writes the value of e (Int or String) into the store: as the label
+// of a dimensioned Int metric, else into a scalar metric of its type (Int: =
+// or +=; String: a text metric), else through its length / its text.
+func (g *gen) storeValue(e *Expr) *Stmt {
+	str := e
+	if e.Ty != TStr {
+		str = &Expr{Op: "conv", Fn: "string", From: e.Ty, Ty: TStr, A: e}
+	}
+	for _, m := range g.p.Metrics {
+		if len(m.Keys) == 1 && m.Ty == TInt {
+			k := e
+			if e.Ty != TStr {
+				k = &Expr{Op: "conv", From: e.Ty, Ty: TStr, A: e}
+			}
+			m.pinned = true
+			return &Stmt{Op: "inc", M: m, Keys: []*Expr{k}, Ty: TInt}
+		}
+	}
+	for _, m := range g.p.Metrics {
+		if len(m.Keys) != 0 {
+			continue
+		}
+		switch {
+		case m.Ty == TStr:
+			m.pinned = true
+			return &Stmt{Op: "set", M: m, Ty: TStr, E: str}
+		case m.Ty == TInt && e.Ty == TInt && m.Kind != "counter":
+			m.pinned = true
+			return &Stmt{Op: "set", M: m, Ty: TInt, E: e}
+		case m.Ty == TInt && e.Ty == TInt:
+			m.pinned = true
+			return &Stmt{Op: "add", M: m, Ty: TInt, E: e}
+		case m.Ty == TInt:
+			m.pinned = true
+			return &Stmt{Op: "add", M: m, Ty: TInt, E: &Expr{Op: "len", Ty: TInt, A: str}}
+		}
+	}
+	return nil
+}
+
+// convProbes appends (main stream of C01) blocks that put conversions on their
+// edge cases into the store BY CONSTRUCTION, not by the luck of the draw:
+// Int ** beyond 2^53 and 2^63 and with negative exponents on bases 1 and -1
+// (the reference: int64(math.Pow(float64 a, float64 b))), and Float -> String
+// of values whose shortest form needs an exponent (< 1e-4, >= 1e21).
+func (g *gen) convProbes() {
+	r := g.r
+	add := func(pn *PatNode, e *Expr, feat string) {
+		if s := g.storeValue(e); s != nil {
+			g.p.Body = append(g.p.Body, &Stmt{Op: "cond", E: &Expr{Op: "match", Ty: TBool, Pat: pn}, Then: []*Stmt{s}})
+			g.feat(feat)
+		} else {
+			// no metric can take the value: the pattern is not written
+			g.p.patterns = g.p.patterns[:len(g.p.patterns)-1]
+		}
+	}
+	if r.Chance(35) {
+		pn := g.fixedPat(`[-+]?\d+`, []string{"1", "-1", "7", "-7", "42", "5", "12", "3", "+1"})
+		e := &Expr{Op: "arith", Ty: TInt, Sym: "**", A: &Expr{Op: "cap", Ty: TInt, Pat: pn, Grp: 1},
+			B: &Expr{Op: "int", Ty: TInt, I: vlib.Pick(r, []int64{20, 40, 11, -1, -3})}}
+		add(pn, e, "probe/int-pow")
+	}
+	if !g.cfg.NoFloat && r.Chance(35) {
+		pn := g.fixedPat(`\d+\.\d+`, []string{"0.00001", "0.000025", "2500000000000000000000.0", "0.0001", "123456789.125", "1.50", "1000000000000000000000.0"})
+		add(pn, &Expr{Op: "cap", Ty: TFloat, Pat: pn, Grp: 1}, "probe/float-to-string")
+	}
 }
 
 // ---- declarations ----
